@@ -10,9 +10,10 @@ VERIF = os.path.dirname(os.path.dirname(os.path.abspath(__file__)))
 
 props = [json.loads(l)["id"] for l in open(os.path.join(VERIF, "properties.jsonl"))]
 checks, na = [], []
+claimed = json.load(open(os.path.join(VERIF, "harness", "claimed.json")))
 for pid in props:
     path = os.path.join(VERIF, "harness", "props", pid + ".py")
-    if not os.path.exists(path):
+    if pid not in claimed or not os.path.exists(path):
         na.append({"property_id": pid, "reason": "check not built yet in this session (planned, see DESIGN.md §5); not claimed"})
         continue
     m = importlib.import_module("harness.props." + pid).META
